@@ -1,6 +1,155 @@
+(* C04 - Confirmations carry valid merkle proofs; bad-merkle blocks are never accepted.
+
+   model/Merkle.v:  symbolic hashes (free constructor: injective, never a leaf); the dependency's streaming
+   merkle tree with pruning (AddMerkleProof / AddHash / processProofsLayer / FinalizeMerkleProofs) -
+   MODELLED and validated by correspondence on the real Node.ProcessBlock, not verified; /repo's own part
+   (ProcessBlock's gates, registration loop, root comparison, pairing merkleProofs[i] with txs[i],
+   convertMerkleProof, client.MerkleProof.IsValid); the textbook root as independent reference.
+
+   All statements are for EVERY block size (no bound; induction over the levels of the tree, odd counts at
+   every level included), every subset and position of registered transactions, txids pairwise distinct.
+   `zlen body < 2^63` only says the transaction count fits a Go int (it makes the uint64 conversions of
+   convertMerkleProof the identity). *)
 From V.lib Require Import Base.
 From V.model Require Import Merkle.
 From V.proofs Require Import Merkle_Proofs.
-Theorem C04_stub : True.
-Proof. exact I. Qed.
-Print Assumptions C04_stub.
+
+(* root_agrees: the streaming root is the textbook root *)
+Theorem C04_root_agrees :
+  forall (body : list (Z * bool)) (t : mtree),
+    NoDup (map fst body) -> body <> [] -> reg_loop body = Ok t ->
+    exists root proofs, finalize t = Ok (Some root, proofs) /\ ref_root (map Leaf (map fst body)) = Some root.
+Proof. exact root_agrees. Qed.
+Print Assumptions C04_root_agrees.
+
+(* proof_verifies (+ alignment per position): the i-th returned proof belongs to the i-th registered
+   txid, its Index is that transaction's index in the block, and the client verifier accepts it for that
+   txid against the root - under any header id *)
+Theorem C04_proof_verifies :
+  forall (body : list (Z * bool)) (t : mtree) (root : mnode) (proofs : list mproof) (i : nat) (q : mproof),
+    NoDup (map fst body) -> zlen body < 2 ^ 63 ->
+    reg_loop body = Ok t -> finalize t = Ok (Some root, proofs) -> proofs !! i = Some q ->
+    registered body !! i = Some (p_txid q) /\
+    0 <= p_index q /\ map fst body !! Z.to_nat (p_index q) = Some (p_txid q) /\
+    forall hid, is_valid (convert_merkle_proof q (hid, root)) (p_txid q) = 0.
+Proof. exact proof_verifies. Qed.
+Print Assumptions C04_proof_verifies.
+
+(* alignment: the proofs come back in registration order - exactly one per registered transaction *)
+Theorem C04_alignment :
+  forall (body : list (Z * bool)) (t : mtree) (root : option mnode) (proofs : list mproof),
+    NoDup (map fst body) -> body <> [] -> reg_loop body = Ok t -> finalize t = Ok (root, proofs) ->
+    map p_txid proofs = registered body.
+Proof. exact alignment. Qed.
+Print Assumptions C04_alignment.
+
+(* the three together, with existence (no panic, no error on the way) *)
+Theorem C04_streaming_correct :
+  forall body : list (Z * bool),
+    NoDup (map fst body) -> body <> [] -> zlen body < 2 ^ 63 ->
+    exists t root proofs,
+      reg_loop body = Ok t /\ finalize t = Ok (Some root, proofs) /\
+      ref_root (map Leaf (map fst body)) = Some root /\
+      map p_txid proofs = registered body /\
+      Forall (fun q => 0 <= p_index q /\ map fst body !! Z.to_nat (p_index q) = Some (p_txid q) /\
+                       forall hid, is_valid (convert_merkle_proof q (hid, root)) (p_txid q) = 0) proofs.
+Proof. exact streaming_correct. Qed.
+Print Assumptions C04_streaming_correct.
+
+(* bad_block_rejected: a body whose textbook root is not the header's root leaves the node's state
+   (chain, unconfirmed set, mempool) and the notification stream untouched *)
+Theorem C04_bad_block_rejected :
+  forall (s : nstate) (hid prev : Z) (hroot : mnode) (body : list (Z * bool)),
+    ref_root (map Leaf (map fst body)) <> Some hroot ->
+    process_block s hid prev hroot body false = (s, ERR, []).
+Proof. exact bad_block_rejected. Qed.
+Print Assumptions C04_bad_block_rejected.
+
+(* ... and with pairwise distinct txids EVERY body other than the committed list is such a body:
+   transaction added, dropped, reordered or altered under an unchanged header *)
+Theorem C04_corrupted_body_rejected :
+  forall (s : nstate) (hid prev : Z) (hroot : mnode) (committed : list Z) (body : list (Z * bool)),
+    NoDup committed -> NoDup (map fst body) ->
+    ref_root (map Leaf committed) = Some hroot ->
+    map fst body <> committed ->
+    process_block s hid prev hroot body false = (s, ERR, []).
+Proof. exact corrupted_body_rejected. Qed.
+Print Assumptions C04_corrupted_body_rejected.
+
+(* the block that does pass ProcessBlock's gates (not held, extends the tip, IsMerkleRootValid): the
+   second root comparison - which sits AFTER blocks.Add and HandleHeaders - never fails; the header is
+   added and announced; the transactions selected by the loop (txs, a subsequence of the block) get, in
+   block order, one notification each of the right kind with that header, depth 0, their true index and
+   a proof the client verifier accepts *)
+Theorem C04_accepted_block :
+  forall (s : nstate) (hid prev : Z) (hroot : mnode) (body : list (Z * bool)),
+    NoDup (map fst body) -> zlen body < 2 ^ 63 ->
+    existsb (fun h => fst h =? hid) (n_chain s) || (hid =? 0) = false ->
+    prev = n_tip s ->
+    is_merkle_root_valid hroot (map fst body) = true ->
+    exists unconf mempool txs evs,
+      process_block s hid prev hroot body false =
+        (NS ((hid, hroot) :: n_chain s) unconf mempool (n_insync s), OK, EHeaders (n_height s + 1) hid :: evs) /\
+      Forall2 (conf_ok hid hroot (map fst body)) txs evs /\
+      (map fst txs `sublist_of` map fst body).
+Proof. exact accepted_block. Qed.
+Print Assumptions C04_accepted_block.
+
+(* Non-vacuity (every example is a CLOSED computation: vm_compute on explicit small inputs only).
+   A 7-transaction block (odd count at level 0) with 3 registered transactions - the first, a middle one
+   and the last (whose leaf is duplicated); a 5-transaction block (odd count at levels 0 and 1); then a
+   history with transactions delivered unconfirmed before their block and a reordered body. *)
+Example C04_example_body : list (Z * bool) :=
+  [(11, true); (12, false); (13, false); (14, true); (15, false); (16, false); (17, true)].
+Example C04_example_tree :
+  match reg_loop C04_example_body with
+  | Ok t =>
+      match finalize t with
+      | Ok (Some root, proofs) =>
+          ref_root (map Leaf (map fst C04_example_body)) = Some root /\
+          map (fun q => (p_txid q, p_index q, length (p_path q), p_dups q)) proofs
+            = [(11, 0, 3%nat, []); (14, 3, 3%nat, []); (17, 6, 2%nat, [1])] /\
+          map (fun q => is_valid (convert_merkle_proof q (1, root)) (p_txid q)) proofs = [0; 0; 0] /\
+          (* a proof does not verify for another txid *)
+          map (fun q => is_valid (convert_merkle_proof q (1, root)) 12) proofs = [2; 2; 2]
+      | _ => False
+      end
+  | _ => False
+  end.
+Proof. vm_compute. repeat split; reflexivity. Qed.
+
+(* five transactions: odd count at level 0 and at level 1 - the last transaction's node is duplicated twice *)
+Example C04_example_tree5 :
+  match reg_loop [(1, false); (2, true); (3, false); (4, false); (5, true)] with
+  | Ok t =>
+      match finalize t with
+      | Ok (Some root, proofs) =>
+          ref_root (map Leaf [1; 2; 3; 4; 5]) = Some root /\
+          map (fun q => (p_txid q, p_index q, p_path q, p_dups q)) proofs
+            = [(2, 1, [Leaf 1; Node (Leaf 3) (Leaf 4);
+                       Node (Node (Leaf 5) (Leaf 5)) (Node (Leaf 5) (Leaf 5))], []);
+               (5, 4, [Node (Node (Leaf 1) (Leaf 2)) (Node (Leaf 3) (Leaf 4))], [1; 2])] /\
+          map (fun q => is_valid (convert_merkle_proof q (1, root)) (p_txid q)) proofs = [0; 0]
+      | _ => False
+      end
+  | _ => False
+  end.
+Proof. vm_compute. repeat split; reflexivity. Qed.
+
+Example C04_example_ops : list op :=
+  [OSeen 14 true; OSeen 12 false; OSeen 17 true;
+   OBlock 1 0 [11; 12; 13; 14; 15; 16; 17] C04_example_body false;
+   OBlock 2 1 [21; 22; 23] [(21, true); (23, false); (22, true)] false;       (* reordered: rejected *)
+   OBlock 2 1 [21; 22; 23] [(21, true); (22, true); (23, false)] false].
+Example C04_example_run :
+  c04_valid C04_example_ops = true /\
+  c04_monitor C04_example_ops (run true C04_example_ops) = None /\
+  map (fun o => firstn 4 o) (run true C04_example_ops)
+    = [[0; 0; 0; 1]; [0; 0; 0; 0]; [0; 0; 0; 1]; [0; 1; 1; 4]; [1; 1; 1; 0]; [0; 2; 2; 3]].
+Proof. vm_compute. repeat split; reflexivity. Qed.
+
+(* Recorded note (not a violation of the statement): without the hypothesis "txids pairwise distinct" the
+   textbook root - and so both gates - cannot tell [a;b;c] from [a;b;c;c] (CVE-2012-2459). *)
+Example C04_duplication_note :
+  ref_root (map Leaf [1; 2; 3]) = ref_root (map Leaf [1; 2; 3; 3]).
+Proof. vm_compute. reflexivity. Qed.
